@@ -13,14 +13,15 @@ pub const N: usize = 4;
 #[cfg(not(verif_deep))]
 pub const N: usize = 3;
 
-/// symbolic name: 0..=N bytes over a 3-letter alphabet (prefix structure is what matters)
+/// symbolic name: 0..=N bytes over {a, b, A, _} (prefix structure and letter case are what matter)
 fn sym_name<'a, S: Src>(s: &mut S, buf: &'a mut [u8; N]) -> &'a str {
     let len = s.usize();
     s.assume(len <= N);
     let mut i = 0;
     while i < N {
         let c = s.u8();
-        s.assume(c == b'a' || c == b'b' || c == b'_');
+        // two letters, an upper-case variant of one of them, and '_' (which sorts below letters)
+        s.assume(c == b'a' || c == b'b' || c == b'A' || c == b'_');
         buf[i] = c;
         i += 1;
     }
